@@ -89,7 +89,7 @@ fn plan(seeds: &[u16]) -> Plan {
         prefix.push((i, format!("NICK n{}", i)));
         prefix.push((i, format!("USER u{} 0 * :Real n{}", i, i)));
     }
-    let kind_i = s.pick(14);
+    let kind_i = s.pick(20);
     let mut per_conn: Vec<(usize, Vec<String>)> = vec![];
     let mut contested_nick = None;
     let mut new_channel = None;
@@ -233,6 +233,84 @@ fn plan(seeds: &[u16]) -> Plan {
             }
             "multi-target-vs-join"
         }
+        14..=19 => {
+            // any pair of handlers: two or three connections send one or two commands each, drawn
+            // from a broad vocabulary over a prepared scene (n0 founder of #r and oper, n1 operator
+            // of #r, n2 plain member, n3 outsider holding an invitation half of the time)
+            prefix.push((0, "JOIN #r".into()));
+            prefix.push((1, "JOIN #r".into()));
+            prefix.push((2, "JOIN #r".into()));
+            prefix.push((0, "MODE #r +o n1".into()));
+            prefix.push((0, "OPER op0 operpw0".into()));
+            if s.chance(50) {
+                prefix.push((0, "INVITE n3 #r".into()));
+            }
+            if s.chance(30) {
+                prefix.push((0, ["MODE #r +t", "MODE #r +m", "MODE #r +i", "MODE #r +s", "MODE #r +n", "MODE #r +l 4", "MODE #r +k key"][s.pick(7)].into()));
+            }
+            if s.chance(30) {
+                prefix.push((3, "JOIN #r2".into()));
+                prefix.push((2, "JOIN #r2".into()));
+            }
+            let nact = 2 + s.pick(2);
+            let mut actors: Vec<usize> = vec![0, 1, 2, 3];
+            while actors.len() > nact {
+                let k = s.pick(actors.len());
+                actors.remove(k);
+            }
+            let budget = if nact == 2 { [2, 2] .to_vec() } else { vec![2, 2, 1] };
+            for (ai, a) in actors.iter().enumerate() {
+                let me = format!("n{}", a);
+                let other = format!("n{}", (a + 1 + s.pick(3)) % 4);
+                let mut v = vec![];
+                let n = 1 + s.pick(budget[ai]);
+                for _ in 0..n {
+                    let l: String = match s.pick(34) {
+                        0 => "JOIN #r".into(),
+                        1 => "PART #r".into(),
+                        2 => "JOIN #r2,#r".into(),
+                        3 => "PART #r,#r2 :bye".into(),
+                        4 => "PRIVMSG #r :to the channel".into(),
+                        5 => format!("PRIVMSG {},#r :to both", other),
+                        6 => "NOTICE #r,#r2 :note".into(),
+                        7 => format!("NICK {}b", me),
+                        8 => "TOPIC #r :new topic".into(),
+                        9 => "TOPIC #r".into(),
+                        10 => ["MODE #r +m", "MODE #r -m", "MODE #r +t", "MODE #r +i", "MODE #r -i", "MODE #r +s", "MODE #r +n"][s.pick(7)].into(),
+                        11 => format!("MODE #r +v {}", other),
+                        12 => format!("MODE #r -o {}", other),
+                        13 => format!("MODE #r +o {}", other),
+                        14 => format!("MODE #r +b *!*@10.0.0.{}", 1 + s.pick(4)),
+                        15 => ["MODE #r +k key", "MODE #r -k key", "MODE #r +l 3", "MODE #r -l"][s.pick(4)].into(),
+                        16 => format!("KICK #r {}", other),
+                        17 => format!("INVITE {} #r", other),
+                        18 => "AWAY :gone fishing".into(),
+                        19 => "AWAY".into(),
+                        20 => "WHO #r".into(),
+                        21 => format!("WHOIS {}", other),
+                        22 => "NAMES #r".into(),
+                        23 => "LIST".into(),
+                        24 => format!("USERHOST n0 n1 n2 n3"),
+                        25 => "QUIT :leaving".into(),
+                        26 => format!("MODE {} +i", me),
+                        27 => format!("MODE {} +w", me),
+                        28 => "WALLOPS :attention".into(),
+                        29 => format!("PRIVMSG {} :direct", other),
+                        30 => "LUSERS".into(),
+                        31 => "JOIN 0".into(),
+                        32 => format!("WHOWAS {}", other),
+                        _ => "MODE #r".into(),
+                    };
+                    let quit = l.starts_with("QUIT");
+                    v.push(l);
+                    if quit {
+                        break;
+                    }
+                }
+                per_conn.push((*a, v));
+            }
+            "random-mix"
+        }
         _ => {
             prefix.push((0, "JOIN #v".into()));
             prefix.push((0, "MODE #v +i".into()));
@@ -270,14 +348,34 @@ fn light(line: &str) -> Option<String> {
             m.command,
             m.params.get(1).cloned().unwrap_or_default()
         )),
-        "353" => {
+        "324" => {
+            // "+flags [args]" then "+q nick" style pairs from hash sets: sort the pairs
+            let p: Vec<String> = m.params.iter().skip(1).cloned().collect();
+            let mut toks: Vec<String> = p.iter().skip(1).flat_map(|x| x.split(' ').map(|y| y.to_string()).collect::<Vec<_>>()).filter(|x| !x.is_empty()).collect();
+            let mut head = vec![];
+            let mut pairs = vec![];
+            while !toks.is_empty() {
+                let t = toks.remove(0);
+                if t.len() == 2 && (t.starts_with('+')) && "qaohvbeI".contains(&t[1..]) && !toks.is_empty() {
+                    let a = toks.remove(0);
+                    pairs.push(format!("{} {}", t, a));
+                } else {
+                    head.push(t);
+                }
+            }
+            pairs.sort();
+            Some(format!("{} 324 {} {} {}", m.source.unwrap_or_default(), p.first().cloned().unwrap_or_default(), head.join(" "), pairs.join(" ")))
+        }
+        "353" | "319" => {
             let mut p = m.params.clone();
             if let Some(last) = p.last_mut() {
                 let mut v: Vec<&str> = last.split(' ').filter(|x| !x.is_empty()).collect();
                 v.sort();
                 *last = v.join(" ");
             }
-            Some(format!("{} 353 {}", m.source.unwrap_or_default(), p.join(" ")))
+            // (the <client> parameter is dropped as for every numeric)
+            let code = m.command.clone();
+            Some(format!("{} {} {}", m.source.unwrap_or_default(), code, p[1.min(p.len())..].join(" ")))
         }
         c if c.len() == 3 && c.chars().all(|x| x.is_ascii_digit()) => {
             // the <client> parameter of a numeric (nick, user name or address the server uses to
@@ -303,8 +401,10 @@ struct Outcome {
 fn sibling_key(line: &str) -> Option<String> {
     // numerics are in the `light` form "<source> <code> <params...>"
     let mut t = line.split(' ');
-    if let (Some(_), Some("352"), Some(mask)) = (t.next(), t.next(), t.next()) {
-        return Some(format!("352 {}", mask));
+    match (t.next(), t.next(), t.next()) {
+        (Some(_), Some("352"), Some(mask)) => return Some(format!("352 {}", mask)),
+        (Some(_), Some("322"), _) => return Some("322".to_string()),
+        _ => {}
     }
     let m = refparse::parse(line).ok()?;
     match m.command.as_str() {
@@ -334,7 +434,30 @@ fn canon_runs(v: &mut Vec<String>) {
     }
 }
 
+// Lines with a user prefix reach a connection on two paths: through its FIFO queue (everything
+// other users cause, and the own copy of a channel broadcast) or written directly by its own
+// handler (the echo of the own JOIN and of the own user MODE).  Order is defined within a path
+// only: a queued line of an earlier command may be written after the direct echo of a later one.
+fn stream_key(l: &str, c: usize) -> String {
+    let mut t = l[1..].split(' ');
+    let src = t.next().unwrap_or("").to_string();
+    let cmd = t.next().unwrap_or("");
+    let target = t.next().unwrap_or("");
+    let nick = src.split('!').next().unwrap_or("");
+    let own = nick == format!("n{}", c) || nick == format!("n{}b", c) || (c >= 4 && ["x", "y", "z"].contains(&nick));
+    let direct = (cmd == "MODE" && !target.starts_with('#') && !target.starts_with('&')) || (cmd == "JOIN" && own);
+    if direct {
+        format!("{} (own echo)", src)
+    } else {
+        src
+    }
+}
+
 fn canon_outcome(mut o: Outcome) -> Outcome {
+    // what was queued for a connection that leaves during the burst (QUIT, KILL, error) may or may
+    // not be written before its socket closes: not part of the outcome
+    let eof = o.eof.clone();
+    o.relays.retain(|(_, c), _| !eof.contains(c));
     for v in o.replies.values_mut() {
         canon_runs(v);
     }
@@ -356,8 +479,8 @@ const DIGEST_QUERIES: &[&str] = &[
     "LIST",
     "LUSERS",
     "WHO *",
-    "WHOIS n0,n1,n2,n3,x,y,z,n1b",
-    "ISON n0 n1 n2 n3 x y z n1b",
+    "WHOIS n0,n1,n2,n3,x,y,z,n1b,n0b,n2b,n3b",
+    "ISON n0 n1 n2 n3 x y z n1b n0b n2b n3b",
     "WHOWAS n1",
     "WHOWAS n2",
 ];
@@ -426,7 +549,7 @@ fn execute(p: &Plan, order: &[(usize, String)], concurrent: bool, seed: u64) -> 
             if l.starts_with(&server_prefix) {
                 replies.entry(*c).or_default().push(n);
             } else {
-                let src = l[1..].split(' ').next().unwrap_or("").to_string();
+                let src = stream_key(l, *c);
                 relays.entry((src, *c)).or_default().push(n);
             }
         }
@@ -467,7 +590,7 @@ fn execute(p: &Plan, order: &[(usize, String)], concurrent: bool, seed: u64) -> 
             w.settle();
             all.extend(w.drain(c));
         }
-        for extra in ["#new", "#lim", "#m", "#k", "#q", "#e", "#v", "#w", "#a1", "#a4"] {
+        for extra in ["#new", "#lim", "#m", "#k", "#q", "#e", "#v", "#w", "#a1", "#a4", "#r", "#r2"] {
             w.send_line(c, &format!("MODE {}", extra));
             w.send_line(c, &format!("TOPIC {}", extra));
             w.settle();
@@ -604,6 +727,19 @@ pub fn check_burst(c: &BurstCase, st: &mut Stats) -> Result<(), Viol> {
                     let b: BTreeSet<String> = seq.outcome.digest.get(k).map(|x| x.iter().map(norm::show).collect()).unwrap_or_default();
                     d.push(format!("final state seen by c{}: only concurrent {:?} / only sequential {:?}", k, a.difference(&b).collect::<Vec<_>>(), b.difference(&a).collect::<Vec<_>>()));
                 }
+            }
+            for (k, v) in &seq.outcome.replies {
+                if !conc.outcome.replies.contains_key(k) {
+                    d.push(format!("replies of c{}: concurrent none / sequential {:?}", k, v));
+                }
+            }
+            for (k, v) in &seq.outcome.relays {
+                if !conc.outcome.relays.contains_key(k) {
+                    d.push(format!("relays {:?}: concurrent none / sequential {:?}", k, v));
+                }
+            }
+            if seq.outcome.eof != conc.outcome.eof {
+                d.push(format!("closed connections: concurrent {:?} / sequential {:?}", conc.outcome.eof, seq.outcome.eof));
             }
             closest = Some((tried, d));
         }
@@ -1010,6 +1146,11 @@ fn execute_mt(p: &Plan, workers: usize) -> Result<Option<RunInfo>, Viol> {
                 }
             }
         }
+        // a connection that is AWAY answers its own barrier message with 301 <own nick>
+        ls2.retain(|l| {
+            let mut t = l.split(' ');
+            !(t.nth(1) == Some("301") && t.nth(1).map_or(false, |n| n == format!("n{}", c) || n == format!("n{}b", c)))
+        });
         for l in &ls2 {
             log.push(format!("c{} < {}", c, l));
         }
@@ -1030,7 +1171,7 @@ fn execute_mt(p: &Plan, workers: usize) -> Result<Option<RunInfo>, Viol> {
             if l.starts_with(&server_prefix) {
                 replies.entry(*c).or_default().push(n);
             } else {
-                let src = l[1..].split(' ').next().unwrap_or("").to_string();
+                let src = stream_key(l, *c);
                 relays.entry((src, *c)).or_default().push(n);
             }
         }
@@ -1050,7 +1191,7 @@ fn execute_mt(p: &Plan, workers: usize) -> Result<Option<RunInfo>, Viol> {
         let from = w.conns[c].lines.len();
         let mut k = 0;
         let mut qs: Vec<String> = DIGEST_QUERIES.iter().map(|s| s.to_string()).collect();
-        for extra in ["#new", "#lim", "#m", "#k", "#q", "#e", "#v", "#w", "#a1", "#a4"] {
+        for extra in ["#new", "#lim", "#m", "#k", "#q", "#e", "#v", "#w", "#a1", "#a4", "#r", "#r2"] {
             qs.push(format!("MODE {}", extra));
             qs.push(format!("TOPIC {}", extra));
         }
